@@ -508,7 +508,7 @@ func genSample(t *rapid.T, label string) []float64 {
 		n = rapid.IntRange(13, 70).Draw(t, label+"_nbig")
 	}
 	xs := make([]float64, n)
-	kind := rapid.IntRange(0, 4).Draw(t, label+"_kind")
+	kind := rapid.IntRange(0, 5).Draw(t, label+"_kind")
 	scale := math.Pow(10, float64(rapid.IntRange(-9, 12).Draw(t, label+"_mag")))
 	for i := range xs {
 		switch kind {
@@ -516,6 +516,11 @@ func genSample(t *rapid.T, label string) []float64 {
 			xs[i] = float64(rapid.IntRange(1, 4).Draw(t, label+"_v")) * scale
 		case 1: // integers incl. zero and negatives
 			xs[i] = float64(rapid.IntRange(-5, 20).Draw(t, label+"_i"))
+		case 5: // many zeros: a center or an interval end that is exactly zero
+			xs[i] = 0
+			if rapid.IntRange(0, 2).Draw(t, label+"_nz") == 0 {
+				xs[i] = float64(rapid.IntRange(-3, 6).Draw(t, label+"_zi"))
+			}
 		case 2: // constant with occasional deviation
 			xs[i] = 7 * scale
 			if vcase.OneIn(t, 6, label+"_dev") {
